@@ -51,6 +51,9 @@ def leaf_lines(kind, n):
         "table-ragged": ["| a | b |", "|---|---|", "| 1 |", "| 1 | 2 | 3 |"],
         "code": ["```", "C%d" % n, "```"],
         "inline-html": ["I%d <b>bold</b> and <i>it</i>" % n],
+        "target-a-quote-fn": ["(a)=", "> [^n]: D%d quoted note" % n],  # a target propagated onto a block quote that holds only a footnote definition
+        "h2-cjk": ["## \u6982\u8981"],  # a title whose docutils id is auto-generated (make_id gives nothing)
+        "link-cjk": ["L%d [](#\u6982\u8981) and [t](#\u6982\u8981-1)" % n],
         "html-img-mixed": ['<img src="a%d.png" name="a" alt="A">' % n, "<p>mixed %d</p>" % n],  # an understood element followed by other HTML: the block stays raw, nothing is registered
         "target-a-titled": ["(a)=", "## Titled %d" % n],
         "link-a-twice": ["L%d [](#a) and [](#a) and [](#a)" % n],
@@ -81,7 +84,7 @@ def leaf_lines(kind, n):
 
 DIRS = ["d-figure", "d-figure-bad", "d-list-table", "d-list-table-ragged", "d-table", "d-csv", "d-topic", "d-sidebar", "d-epigraph", "d-parsed-literal", "d-container", "d-rubric", "d-math", "d-code",
         "d-admon-title", "d-evalrst", "d-unknown", "d-compound"]
-NAMES = ["fnref", "fndef", "target-n", "h1-n", "fnref-a", "fndef-a", "link-a", "target-a", "target-a-titled", "link-a-twice", "html-img-mixed"]
+NAMES = ["fnref", "fndef", "target-n", "h1-n", "fnref-a", "fndef-a", "link-a", "target-a", "target-a-titled", "link-a-twice", "html-img-mixed", "h2-cjk", "link-cjk", "target-a-quote-fn"]
 
 
 def gen_blocks(c, depth, nblocks, counter, leafs=None):
@@ -153,8 +156,10 @@ def wf_check(doc, stage):
                 continue
             rid = n.get("refid") if isinstance(n, (nodes.reference, nodes.footnote_reference, nodes.target)) else None
             if rid is not None and rid not in ids:
-                warned = any(isinstance(ch, nodes.system_message) for ch in n.children) or any(
-                    isinstance(m, nodes.system_message) and ("not found" in m.astext() or "Unknown target" in m.astext() or "Duplicate" in m.astext()) for m in doc.findall(nodes.system_message))
+                # excused only by a warning attached to this very reference, or by a docutils message that names this target
+                warned = any(isinstance(ch, nodes.system_message) for ch in n.children) or (bool(rid) and any(
+                    isinstance(m, nodes.system_message) and ("not found" in m.astext() or "Unknown target" in m.astext() or "Duplicate" in m.astext()) and rid.lower() in m.astext().lower()
+                    for m in doc.findall(nodes.system_message)))
                 if not warned:
                     return ("dangling-refid", "%s: %s refid %r does not exist and no warning was issued" % (stage, n.tagname, rid))
             if isinstance(n, nodes.footnote):
